@@ -31,17 +31,61 @@ type tamper struct {
 }
 
 type pAction struct {
-	Name   string   `json:"name"`
-	K      []int    `json:"k,omitempty"`
-	V      int      `json:"v,omitempty"`
-	Impl   string   `json:"impl,omitempty"`
-	Cached bool     `json:"cached,omitempty"`
-	Tm     *tamper  `json:"tm,omitempty"`
-	First  []int    `json:"first,omitempty"`
-	Last   []int    `json:"last,omitempty"`
-	M      string   `json:"m,omitempty"`
-	Claim  []presKV `json:"claim,omitempty"`
-	Whole  bool     `json:"whole,omitempty"`
+	Name   string     `json:"name"`
+	K      []int      `json:"k,omitempty"`
+	V      int        `json:"v,omitempty"`
+	Impl   string     `json:"impl,omitempty"`
+	Cached bool       `json:"cached,omitempty"`
+	Tm     *tamper    `json:"tm,omitempty"`
+	First  *firstSpec `json:"first,omitempty"`
+	M      string     `json:"m,omitempty"`
+	Claim  []presKV   `json:"claim,omitempty"`
+	Whole  bool       `json:"whole,omitempty"`
+}
+
+// firstSpec is the left boundary of a range claim: the model key K, or (J < H) a key that agrees with K
+// up to model bit J and leaves the model's key space inside the padding run after that bit, below
+// ("below": on the left of the real edge there) or above every key with that prefix.
+type firstSpec struct {
+	K   []int  `json:"k"`
+	J   int    `json:"j"`
+	Dir string `json:"dir"`
+}
+
+// realFirst concretises a boundary; ok = false when the embedding has no suitable padding bit in run J.
+func (v *variant) realFirst(f *firstSpec) (*felt.Felt, bool) {
+	base := v.key(f.K)
+	h := len(v.Pos)
+	if f.J >= h {
+		return base, true
+	}
+	lo := 0
+	if f.J > 0 {
+		lo = v.Pos[f.J-1] + 1
+	}
+	hi := v.Pos[f.J]
+	pad, _ := new(big.Int).SetString(v.Pad, 10)
+	want := uint(1) // "below": a padding 1 becomes 0
+	if f.Dir == "above" {
+		want = 0
+	}
+	var cands []int
+	for p := lo; p < hi; p++ {
+		if pad.Bit(v.Height-1-p) == want {
+			cands = append(cands, p)
+		}
+	}
+	if len(cands) == 0 {
+		return nil, false
+	}
+	x := f.J * 7
+	for _, b := range f.K {
+		x = x*2 + b
+	}
+	p := cands[x%len(cands)]
+	k := bigOf(base)
+	k.SetBit(k, v.Height-1-p, 1-want)
+	return new(felt.Felt).SetBigInt(k), true
 }
 
 type pOut struct {
@@ -524,7 +568,7 @@ type rangeVerdict struct {
 	raw      string
 }
 
-func runRange(v *variant, bt *builtTries, a pAction) (rv rangeVerdict) {
+func runRange(v *variant, bt *builtTries, a pAction, first *felt.Felt) (rv rangeVerdict) {
 	defer func() {
 		if p := recover(); p != nil {
 			rv = rangeVerdict{raw: "panic: " + fmt.Sprint(p)}
@@ -537,7 +581,6 @@ func runRange(v *variant, bt *builtTries, a pAction) (rv rangeVerdict) {
 		keys = append(keys, v.key(c.K))
 		vals = append(vals, v.value(c.V))
 	}
-	first := v.key(a.First)
 	last := first
 	if len(keys) > 0 {
 		last = keys[len(keys)-1]
@@ -702,8 +745,16 @@ func TestProofReplay(t *testing.T) {
 						counts["range-skipped-poseidon"]++
 						continue
 					}
+					first, ok := v.realFirst(s.A.First)
+					if !ok {
+						counts["range-skipped-no-padding-bit"]++
+						continue
+					}
 					counts["range-"+s.A.M]++
-					rv := runRange(&v, bt, s.A)
+					if s.A.First.J < in.H {
+						counts[fmt.Sprintf("range-first-inside-edge-%s-run%d", s.A.First.Dir, s.A.First.J)]++
+					}
+					rv := runRange(&v, bt, s.A, first)
 					impl := s.A.Impl
 					switch {
 					case len(rv.raw) > 6 && rv.raw[:6] == "panic:":
